@@ -63,6 +63,11 @@ def analyze(sched, res):
             ok = len(got) == len(expected) and all(match(g, e) for g, e in zip(got, expected))
             if not ok:
                 V.append((prop, k, "%s: expected %s, client sent %s" % (what, json.dumps(expected)[:500], json.dumps([brief(g) for g in rest])[:500])))
+                # publications on a response topic that no request handled in this call and no pending list answer asks for
+                for g in rest:
+                    if not g["topic"].startswith(prefix + "/settings") and g["topic"] != prefix + "/alive" \
+                            and not (h is not None and g["topic"] == h.get("resp")) and not (prop == "C07"):
+                        V.append(("C07", k, "response %s sent for a request that was not received" % json.dumps(brief(g))[:300]))
             rest = rest[len(expected):] if ok else []
             return ok
         if state0 == "Alive":
@@ -128,6 +133,12 @@ def analyze(sched, res):
                 V.append(("C07", k, "response duplicated: %s" % json.dumps([brief(g) for g in rest])[:400]))
             for p in hit[:1]:
                 rest.remove(p)
+        # C14: response topic / correlation data longer than the client can cache: one Error response where a
+        # response topic is named, otherwise ignored; never accepted as a multipart request
+        if h is not None and not h.get("payload") and "internal" in orc and (len(h.get("resp", "")) > 128 or len(h.get("cd", [])) > 32) \
+                and "msg2" not in sin and not sin.get("api"):
+            if b["state"] == "Single" and b["connected"] and a["state"] == "Multipart":
+                V.append(("C14", k, "request %s with an over-long response topic / correlation data was accepted as a multipart request" % json.dumps(h)[:300]))
         # start of a multipart answer requested over MQTT
         if h is not None and starts_multipart(h, orc, st) and not (state0 in ("Single", "Multipart")):
             V.append(("C07", k, "multipart request %s accepted in state %s: the initial dump / another answer is still pending" % (json.dumps(h)[:200], state0)))
